@@ -1107,6 +1107,32 @@ def r65(ctx: Ctx) -> RuleReport:
     root_fi = fi
     for fi, n in sites:
         pred = None
+        # filterfalse(<is a role alignment>, g.epidata.get(second, [])) / filter(<is not one>, ...), the predicate a module-level function or a lambda
+        if isinstance(n, ast.Call) and norm(n.func).split('.')[-1] in ('filterfalse', 'filter') and len(n.args) == 2 and '.epidata.get(' in norm(n.args[1]):
+            pf = n.args[0]
+            body_ = None
+            if isinstance(pf, ast.Lambda) and len(pf.args.args) == 1:
+                body_, pv_ = pf.body, pf.args.args[0].arg
+            elif isinstance(pf, ast.Name) and pf.id in fi.module.functions:
+                h_ = fi.module.functions[pf.id]
+                rets_ = [x for x in walk_local(h_.node) if isinstance(x, ast.Return) and x.value is not None]
+                if len(rets_) == 1 and len(h_.positional) == 1:
+                    body_, pv_ = rets_[0].value, h_.positional[0]
+            if body_ is not None:
+                try:
+                    s2 = sel.bind_target(ast.Name(id=pv_, ctx=ast.Store()), {})
+                    f_ = sel.formula(fi, body_, n, s2)
+                    pred = bn.mk_not(f_) if norm(n.func).split('.')[-1] == 'filterfalse' else f_
+                except AnalysisError:
+                    pred = None
+        if pred is not None:
+            found = True
+            d = bn.equivalent(pred, want)
+            if d is None:
+                rep.ok(key, fi.loc(n), bn.show(pred))
+            else:
+                rep.violation(key, fi.loc(n), f'the markers that are carried over are those with `{bn.show(pred)}`; the documented selection is `{bn.show(want)}` (they differ for {d})')
+            continue
         if isinstance(n, (ast.GeneratorExp, ast.ListComp)) and len(n.generators) == 1 and '.epidata.get(' in norm(n.generators[0].iter) \
                 and norm(n.elt) == norm(n.generators[0].target):
             g = n.generators[0]
@@ -1218,6 +1244,10 @@ def r32(ctx: Ctx) -> RuleReport:
                 elif isinstance(s0, ast.Name):
                     vals = [x for x in ctx.cg.local_assigns(fi).get(s0.id, []) if isinstance(x, ast.AST)]
                     if any(is_cast_var(x) for x in vals):
+                        producers[fi.fq] = fi
+                    # the same claim made with an annotation instead of a cast:  new_source: Variable = target  # type: ignore
+                    elif any(isinstance(x, ast.AnnAssign) and isinstance(x.target, ast.Name) and x.target.id == s0.id and norm(x.annotation) == 'Variable' and x.value is not None
+                             for x in walk_local(fi.node)) and fi.module.name == 'penman.model':
                         producers[fi.fq] = fi
     changed = True
     while changed:      # wrappers: return <producer>(own parameter)
